@@ -1415,3 +1415,152 @@ Section MuxProj.
     rewrite map_map. destruct Hms as [_ [Hn _]]. exact Hn.
   Qed.
 End MuxProj.
+
+(* ---------------- the environment of the import, for an mbus ---------------- *)
+Lemma mbus_keyed : forall b, mbus b -> keyed_bus b.
+Proof.
+  intros b [_ [_ [Hnd [_ [_ [Hms [Hcan [_ [Hg _]]]]]]]]]. repeat split; try assumption;
+    rewrite Forall_forall in Hms; destruct (Hms m H) as [_ [_ [_ [_ [_ [Hid [_ [[_ [Hnn _]] _]]]]]]]]; solve [lia|assumption].
+Qed.
+
+Lemma env_sig_m : forall b nreg es0 es' se' md nd,
+  keyed_bus b -> Forall enum_wf (b_enums b) ->
+  fold_left (fun acc ve => do a <- acc; import_value_encoding nreg a ve) (bus_vencs b) (Ok (es0, [])) = Ok (es', se') ->
+  forall m s, In m (b_messages b) -> In s (m_signals m) ->
+  env_sig (b_enums b) (mkienv nd md (rev (spairs (doc_cms b))) se' []) (mkistate es' [] []) (u32 (m_canid m)) s.
+Proof.
+  intros b nreg es0 es' se' md nd Hkb Hes Hfold m s Hm Hs.
+  assert (Hwf : forall x, enum_wf (e_of (b_enums b) x)) by (intros x; apply enum_wf_nth; assumption).
+  split; [cbn [ie_sig_desc]; apply (sig_desc_ok b Hkb); assumption|].
+  cbn [ie_sig_enums is_enums].
+  pose proof (Proofs.valenc_fold_keys _ _ _ _ _ _ Hfold) as Hkeys.
+  destruct (ProofsEnum.valenc_fold_resolved _ _ _ _ _ _ Hfold) as [_ Hres].
+  assert (Hkind : forall ve, In ve (bus_vencs b) -> ve_signal ve = true ->
+            (ve_msg ve, ve_sig ve) = (u32 (m_canid m), clear (s_name s)) ->
+            s_kind s = KEnum /\ ve_values ve = evals (e_of (b_enums b) s)).
+  { intros ve Hin _ Hk. apply in_bus_vencs in Hin. destruct Hin as [m' [s' [Hm' [Hs' [Hk' ->]]]]].
+    cbn [ve_msg ve_sig ve_values] in *. inversion Hk as [[K1 K2]].
+    destruct (key_inj b Hkb m' m s' s Hm' Hm Hs' Hs K1 K2) as [-> ->]. auto. }
+  assert (Hnone : s_kind s <> KEnum -> lookup key_eqb (u32 (m_canid m), clear (s_name s)) se' = None).
+  { intros Hne. destruct (lookup key_eqb (u32 (m_canid m), clear (s_name s)) se') as [ei|] eqn:El; [|reflexivity].
+    exfalso. assert (Hin : In (u32 (m_canid m), clear (s_name s)) (map fst se')) by (apply Proofs.lookup_some_in; eauto).
+    apply Hkeys in Hin. destruct Hin as [[]|[ve [H1 [H2 H3]]]]. destruct (Hkind ve H1 H2 H3) as [Hc _]. contradiction. }
+  destruct (s_kind s) eqn:Ek.
+  - apply Hnone. discriminate.
+  - assert (Hin : In (u32 (m_canid m), clear (s_name s)) (map fst se')).
+    { apply Hkeys. right. exists (mkdvalenc true (u32 (m_canid m)) (clear (s_name s)) (evals (e_of (b_enums b) s))).
+      split; [apply in_bus_vencs; exists m, s; auto|auto]. }
+    apply Proofs.lookup_some_in in Hin. destruct Hin as [ei0 El]. exists ei0. split; [assumption|].
+    specialize (Hres _ _ El).
+    destruct (ProofsEnum.last_valenc (bus_vencs b) (u32 (m_canid m), clear (s_name s))) as [v|] eqn:Elv; [|discriminate].
+    destruct Hres as [Hr Hv]. split; [assumption|]. rewrite Hv.
+    apply last_valenc_in in Elv. destruct Elv as [ve [H1 [H2 [H3 ->]]]].
+    destruct (Hkind ve H1 H2 H3) as [_ ->]. apply vsort_evals. apply Hwf.
+  - apply Hnone. discriminate.
+Qed.
+
+(* ---------------- a message without multiplexer is a message of RoundTripEnum ---------------- *)
+Lemma mmessage_plain : forall es names m, mmessage es names m ->
+  (forall s, In s (m_signals m) -> is_muxb s = false) ->
+  emessage es names m /\ dmsg_m es m = dmsg_e es m.
+Proof.
+  intros es names m [Ha [Hc [Hdl [Hsd [Hst [Hid [Hsz [Hms [Hlay [Hsn [Hrc [Hrn Hre]]]]]]]]]]]] Hnm.
+  pose proof Hms as [Hids [Hnames [Htops [_ [Hch _]]]]].
+  assert (Hall : filter is_topb (m_signals m) = m_signals m).
+  { apply filter_all. intros s Hs. destruct (is_topb s) eqn:Et; [reflexivity|]. exfalso.
+    destruct (Hch s Hs Et) as [mx [Hmx [_ [Hm _]]]]. rewrite (Hnm mx Hmx) in Hm. discriminate. }
+  rewrite Hall in *. split.
+  - refine (conj Ha (conj Hc (conj Hdl (conj Hsd (conj Hst (conj Hid (conj Hsz (conj _ (conj Hlay (conj Hnames (conj Hsn (conj Hrc (conj Hrn Hre))))))))))))).
+    apply Forall_forall. intros s Hs. rewrite Forall_forall in Htops. destruct (Htops s Hs) as [H1 [H2 [H3 [H4 [H5 [H6 H7]]]]]].
+    refine (conj H1 (conj H2 (conj H3 (conj H4 (conj H5 (conj H6 _)))))). specialize (Hnm s Hs). unfold is_muxb in Hnm. destruct (s_kind s); try assumption. discriminate.
+  - unfold dmsg_m, dmsg_e. rewrite Hall. f_equal.
+    assert (G : forall sg l, (forall s, In s l -> is_muxb s = false) ->
+              flat_map (tdsigs es sg (m_order m) (recs_out m)) l = map (dsig_e es (m_order m) (recs_out m)) l).
+    { intros sg l. induction l as [|s r IH]; intros Hl; [reflexivity|]. cbn [flat_map map]. rewrite IH by (intros x Hx; apply Hl; right; assumption).
+      specialize (Hl s (or_introl eq_refl)). unfold tdsigs. unfold is_muxb in Hl. destruct (s_kind s); try discriminate; reflexivity. }
+    apply G. assumption.
+Qed.
+
+(* ---------------- any message of the fragment ---------------- *)
+Definition Rmsg_m (es : list enum_def) (env : ienv) (st : istate) (m m' : message) : Prop :=
+  ((forall s, In s (m_signals m) -> is_muxb s = false) /\ Rmsg es st m m') \/
+  (exists mx mid gs S', In mx (m_signals m) /\ is_muxb mx = true /\
+     m' = mkmessage (m_canid m) (clear (m_name m)) (m_size m) (m_order m) 0 0 0 0 (clear (m_sender m)) (recs_in m) (m_desc m) []
+                    (mux_result es env m mx mid gs S') /\
+     Permutation (m_signals m) S' /\ In (mid, mx) (index_from 0 S') /\ 1 <= gs).
+
+Lemma Rmsg_m_mono : forall es env st st' m m', ProofsEnum.st_le st st' -> Rmsg_m es env st m m' -> Rmsg_m es env st' m m'.
+Proof. intros es env st st' m m' Hle [[H1 H2]|H]; [left; split; [assumption|eapply Rmsg_mono; eauto]|right; exact H]. Qed.
+
+Lemma Rmsg_m_head : forall es env st m m', Rmsg_m es env st m m' ->
+  m_canid m' = m_canid m /\ m_sender m' = clear (m_sender m) /\ m_name m' = clear (m_name m).
+Proof.
+  intros es env st m m' [[_ [sg [-> _]]]|[mx [mid [gs [S' [_ [_ [-> _]]]]]]]]; cbn; auto.
+Qed.
+
+Lemma import_message_m : forall es env st0 names nodes st done m,
+  mmessage es names m -> env_msg es env st0 m -> ie_ext_muxes env = [] ->
+  ProofsEnum.refs_valid st0 -> Inv st -> ProofsEnum.st_le st0 st ->
+  (forall r, In r names -> In (clear r) (map n_name nodes)) ->
+  (forall r, In r names -> clear r <> dummy_node) ->
+  ~ In (m_canid m) (map m_canid done) ->
+  ~ In (clear (m_sender m), clear (m_name m)) (map (fun x => (m_sender x, m_name x)) done) ->
+  exists st' m', import_message env (st, done) nodes (dmsg_m es m) = Ok (st', done ++ [m']) /\
+    Inv st' /\ ProofsEnum.st_le st st' /\ Rmsg_m es env st' m m'.
+Proof.
+  intros es env st0 names nodes st done m Hmm Henv Hext Hrv0 HI Hle Hnodes Hnd Hcan Hpair.
+  destruct (existsb is_muxb (m_signals m)) eqn:Ex.
+  - (* a multiplexer *)
+    apply existsb_exists in Ex. destruct Ex as [mx [Hmx Hmxm]].
+    pose proof Hmm as [_ [_ [_ [_ [_ [_ [_ [[_ [_ [_ [_ [_ [_ Hstd]]]]]] _]]]]]]]].
+    destruct Henv as [Hmd Hsig].
+    assert (Henv1 : forall s, In s (m_signals m) -> is_muxb s = false ->
+              lookup key_eqb (u32 (m_canid m), clear (s_name s)) (ie_sig_enums env) = None /\
+              desc_of key_eqb (u32 (m_canid m), clear (s_name s)) (ie_sig_desc env) = s_desc s).
+    { intros s Hs Hnm. destruct (Hsig s Hs) as [[Hd Hl] _]. rewrite (Hstd mx s Hmx Hmxm Hs Hnm) in Hl. auto. }
+    assert (Henvx : desc_of key_eqb (u32 (m_canid m), clear (s_name mx)) (ie_sig_desc env) = s_desc mx)
+      by (destruct (Hsig mx Hmx) as [[Hd _] _]; exact Hd).
+    destruct (import_message_mux es env names nodes st done m mx Hmm Hmx Hmxm Henv1 Henvx Hext Hmd Hnodes Hnd Hcan Hpair)
+      as [st' [S' [mid [gs [E [Hp [Hmid [Hgs [He1 He2]]]]]]]]].
+    exists st'. eexists. split; [exact E|]. destruct HI as [I1 [I2 I3]].
+    split; [|split].
+    + unfold Inv, ProofsEnum.refs_valid. rewrite He1, He2. auto.
+    + apply ProofsLayout.st_le_same; assumption.
+    + right. exists mx, mid, gs, S'. repeat split; try assumption; lia.
+  - (* none *)
+    assert (Hnm : forall s, In s (m_signals m) -> is_muxb s = false).
+    { intros s Hs. destruct (is_muxb s) eqn:E; [|reflexivity]. assert (existsb is_muxb (m_signals m) = true) by (apply existsb_exists; eauto). congruence. }
+    destruct (mmessage_plain es names m Hmm Hnm) as [Hem Hdm]. rewrite Hdm.
+    destruct (import_message_e es env st0 names nodes st done m Hem Henv Hrv0 HI Hle Hnodes Hnd Hcan Hpair)
+      as [st' [m' [E [HI' [Hle' [HR _]]]]]].
+    exists st', m'. split; [exact E|]. split; [exact HI'|]. split; [exact Hle'|]. left. split; assumption.
+Qed.
+
+Lemma import_messages_m : forall es env st0 names nodes l st done,
+  Forall (mmessage es names) l -> (forall m, In m l -> env_msg es env st0 m) -> ie_ext_muxes env = [] ->
+  ProofsEnum.refs_valid st0 -> Inv st -> ProofsEnum.st_le st0 st ->
+  (forall r, In r names -> In (clear r) (map n_name nodes)) ->
+  (forall r, In r names -> clear r <> dummy_node) ->
+  NoDup (map m_canid done ++ map m_canid l) ->
+  NoDup (map (fun x => (m_sender x, m_name x)) done ++ map (fun m => (clear (m_sender m), clear (m_name m))) l) ->
+  exists st' msgs',
+    fold_left (fun acc dm => do a <- acc; import_message env a nodes dm) (map (dmsg_m es) l) (Ok (st, done))
+    = Ok (st', done ++ msgs') /\ Inv st' /\ ProofsEnum.st_le st st' /\ Forall2 (Rmsg_m es env st') l msgs'.
+Proof.
+  intros es env st0 names nodes l. induction l as [|m r IH]; intros st done Hp Henv Hext Hrv0 HI Hle Hn Hd Hc Hq.
+  - cbn. exists st, []. rewrite app_nil_r. split; [reflexivity|]. split; [assumption|]. split; [apply ProofsEnum.st_le_refl|constructor].
+  - inversion Hp as [|? ? Hpm Hpr]; subst. cbn [map fold_left bind].
+    destruct (import_message_m es env st0 names nodes st done m Hpm (Henv m (or_introl eq_refl)) Hext Hrv0 HI Hle Hn Hd)
+      as [st1 [m' [E1 [HI1 [Hle1 HR]]]]].
+    + cbn [map] in Hc. apply NoDup_remove_2 in Hc. intros Hin. apply Hc. apply in_or_app. left. assumption.
+    + cbn [map] in Hq. apply NoDup_remove_2 in Hq. intros Hin. apply Hq. apply in_or_app. left. assumption.
+    + rewrite E1. destruct (Rmsg_m_head _ _ _ _ _ HR) as [K1 [K2 K3]].
+      destruct (IH st1 (done ++ [m'])) as [st' [msgs' [F1 [F2 [F3 F4]]]]]; try assumption.
+      * intros x Hx. apply Henv. right. assumption.
+      * eapply ProofsEnum.st_le_trans; [exact Hrv0|exact Hle|exact Hle1].
+      * rewrite map_app. cbn [map]. rewrite K1, <- app_assoc. exact Hc.
+      * rewrite map_app. cbn [map]. rewrite K2, K3, <- app_assoc. exact Hq.
+      * exists st', (m' :: msgs'). split; [rewrite F1, <- app_assoc; reflexivity|]. split; [assumption|].
+        split; [eapply ProofsEnum.st_le_trans; [exact (proj1 HI)|exact Hle1|exact F3]|].
+        constructor; [eapply Rmsg_m_mono; eauto|assumption].
+Qed.
